@@ -6,6 +6,7 @@ import Sourcer.Peg
 import Sourcer.Prepare
 import Sourcer.Run
 import Sourcer.Api
+import Sourcer.Objects
 /-
   Decoding of protocol terms into model values (driver side only).
 -/
@@ -210,5 +211,48 @@ def machineTrace (body : Nat → Prog Nat Nat) (k0 : Nat) (fuel : Nat) : String 
     | [], some r => s!"done {r}"
     | _, _ => "unfinished"
   return " ".intercalate (out.toList ++ [fin]) ++ s!" | starts {s.starts.length}"
+
+end Sourcer
+
+namespace Sourcer
+open Sexp Obj
+
+partial def decodePV : Sexp → Option PV
+  | .atom "N" => some .none
+  | .atom "T" => some (.bool true)
+  | .atom "F" => some (.bool false)
+  | .list [.atom "i", x] => x.int?.map .int
+  | .list (.atom "s" :: xs) => (nats? xs).map .str
+  | .list (.atom "l" :: xs) => (xs.mapM decodePV).map .list
+  | .list (.atom "t" :: xs) => (xs.mapM decodePV).map .tuple
+  | .list (.atom "d" :: kvs) => do
+    let kvs ← kvs.mapM fun kv => match kv with
+      | .list [k, v] => do pure ((← decodePV k), (← decodePV v))
+      | _ => none
+    pure (.dict kvs)
+  | .list (.atom "o" :: c :: .list [.atom "pos", a, b] :: fs) => do
+    pure (.obj (← c.nat?) (← fs.mapM decodePV) (some ((← a.nat?), (← b.nat?))))
+  | .list (.atom "o" :: c :: fs) => do pure (.obj (← c.nat?) (← fs.mapM decodePV) none)
+  | _ => none
+
+partial def printPV : PV → String
+  | .none => "N"
+  | .bool true => "T"
+  | .bool false => "F"
+  | .int i => s!"(i {i})"
+  | .str s => "(s" ++ String.join (s.map fun c => s!" {c}") ++ ")"
+  | .list xs => "(l" ++ String.join (xs.map fun x => " " ++ printPV x) ++ ")"
+  | .tuple xs => "(t" ++ String.join (xs.map fun x => " " ++ printPV x) ++ ")"
+  | .dict kvs => "(d" ++ String.join (kvs.map fun (k, v) => s!" ({printPV k} {printPV v})") ++ ")"
+  | .obj c fs pos =>
+    let p := match pos with
+      | some (a, b) => s!" (pos {a} {b})"
+      | none => ""
+    s!"(o {c}{p}" ++ String.join (fs.map fun x => " " ++ printPV x) ++ ")"
+
+/-- concrete hash functions for the driver (any would do: only `equal ⇒ equal hash` is observable) -/
+def demoHash : HashFns :=
+  { hnone := 7, hnum := fun i => i * 31 + 1, hstr := fun s => List.foldl (fun (a : Int) (c : Nat) => a * 33 + Int.ofNat c) (5381 : Int) s,
+    htuple := fun hs => hs.foldl (fun a x => a * 1000003 + x) 3, combine := fun a b => a + b * 2 }
 
 end Sourcer
